@@ -11,3 +11,8 @@ def run(chk):
                 "plus arbitrary schedules for the consume-off frame rule; non-trivial = at least two "
                 "track_playback_started events; distinct by op sequence")
     core_check.run_core(chk, "C03", [("settled", 5), ("settledf", 2), ("schedule", 2), ("faults", 1)], ["Property_C03.v"])
+    if not chk.replay:
+        # provider methods failing outside the modelled environment (monitor-only, real Core)
+        import core_faulty
+
+        core_faulty.run_stage(chk, "C03", runtime_faults=False)
